@@ -48,7 +48,7 @@ Definition functor_of (t : term) : option (term * Z) :=
 
 Definition arg_of (i : Z) (t : term) : option term :=
   match t with
-  | Cmp _ l => if (1 <=? i)%Z then nth_error l (Z.to_nat (i - 1)) else None
+  | Cmp _ l => if ((1 <=? i) && (i <=? Z.of_nat (List.length l)))%Z then nth_error l (Z.to_nat (i - 1)) else None
   | _ => None
   end.
 
@@ -142,7 +142,8 @@ Definition subsumes (g s : term) : bool :=
   end.
 
 (* ------------------------------------------------------------------ the builtins by mode *)
-Definition or_errors (errs : list term) (k : out) : out := match errs with [] => k | _ => OErr errs end.
+(* the continuation is a thunk: vm_compute is call-by-value and the success branch may be huge (arity 2^70) *)
+Definition or_errors (errs : list term) (k : unit -> out) : out := match errs with [] => k tt | _ => OErr errs end.
 
 (* functor(T, N, A); [base] is above every variable of the call *)
 Definition m_functor (T Nm A : term) (base : N) : out :=
@@ -160,10 +161,10 @@ Definition m_functor (T Nm A : term) (base : N) : out :=
          | Int a => when (is_atomic Nm && negb (is_atom Nm) && (0 <? a)%Z) (type_err "atom" Nm)
          | _ => []
          end)
-        match Nm, A with
+        (fun _ => match Nm, A with
         | Atom f, Int a => if (a =? 0)%Z then OUnify [(T, Nm)] else OUnify [(T, Cmp f (fresh_vars base (Z.to_nat a)))]
         | _, _ => OUnify [(T, Nm)]
-        end
+        end)
   | _ =>
       match functor_of T with
       | Some (f, n) => OUnify [(Nm, f); (A, Int n)]
@@ -178,10 +179,10 @@ Definition m_arg (Nn T A : term) : out :=
      when (negb (is_var Nn) && negb (is_int Nn)) (type_err "integer" Nn) ++
      match Nn with Int n => when (n <? 0)%Z (dom_err "not_less_than_zero" Nn) | _ => [] end ++
      when (negb (is_var T) && negb (is_compound T)) (type_err "compound" T))
-    match Nn with
+    (fun _ => match Nn with
     | Int n => match arg_of n T with Some a => OUnify [(A, a)] | None => OFail end
     | _ => OFail
-    end.
+    end).
 
 (* T =.. L *)
 Definition m_univ (T L : term) : out :=
@@ -197,7 +198,7 @@ Definition m_univ (T L : term) : out :=
                  when (proper && negb (is_var h) && negb (is_atom h)) (type_err "atom" h) ++
                  when (proper && is_var T && (max_arity <? Z.of_nat (List.length items) - 1)%Z) (rep_err "max_arity")
      end)
-    match T with
+    (fun _ => match T with
     | Var _ =>
         match items with
         | [h] => OUnify [(T, h)]
@@ -205,14 +206,14 @@ Definition m_univ (T L : term) : out :=
         | _ => OFail
         end
     | _ => match univ_of T with Some l => OUnify [(L, tlist l)] | None => OFail end
-    end.
+    end).
 
 Definition m_copy (T C : term) (base : N) : out := OUnify [(C, copy T base)].
 
 Definition m_tvars (T Vs : term) : out :=
   let (_, tail) := lview Vs in
   or_errors (when (negb (is_var tail) && negb (is_nil tail)) (type_err "list" Vs))
-            (OUnify [(Vs, tlist (map Var (tvars T)))]).
+            (fun _ => OUnify [(Vs, tlist (map Var (tvars T)))]).
 
 Definition m_ground (T : term) : out := if ground T then OUnify [] else OFail.
 Definition m_subsumes (G Sp : term) : out := if subsumes G Sp then OUnify [] else OFail.
@@ -246,6 +247,7 @@ Inductive impl_out :=
 | IFail
 | IErr (formal : term)          (* error(Formal, _) *)
 | IOk (bs : list term)          (* exactly one solution; the values of the query's variables *)
+| ICyclic                       (* succeeded, and the values of the variables are cyclic (too big to report) *)
 | IOther.
 
 (* vs = the variables of the query *)
@@ -256,7 +258,14 @@ Definition check_call (c : call) (vs : list N) (o : impl_out) : bool :=
   | OUnify eqs =>
       match unify_v (S (List.length (eqs_vars eqs))) eqs with
       | Ok s => match o with IOk bs => variant_lists (model_bindings s vs) bs | _ => false end
-      | Fail => match o with IFail => true | _ => false end
+      | Fail =>
+          (* no finite unifier: with the default occurs_check=false the builtin then succeeds with a cyclic
+             binding exactly when the equations are solvable over rational trees (C10, C24) *)
+          match unify_rt (Cmp [] (map fst eqs)) (Cmp [] (map snd eqs)) with
+          | Some true => match o with ICyclic => true | _ => false end
+          | Some false => match o with IFail => true | _ => false end
+          | None => false
+          end
       | OutOfFuel => false
       end
   end.
